@@ -467,4 +467,100 @@ theorem show_no_panic (urlOk : Bytes → Bool) (budget : Nat) (hb : 2049 ≤ bud
               simp only
               rw [walk_decoded_no_panic budget 2048 (by omega) b v r hdec]; rfl
 
+/-! ## link and verify -/
+
+/-- facts the loader guarantees, shared by the pipelines -/
+theorem load_facts (urlOk : Bytes → Bool) (b : Bytes) (m : MetainfoM) (span : Bytes) (hl : loadTorrent urlOk b = .ok m span) :
+    ∃ s, sumLengths (lengthsOf m.info.mode) = .ok s ∧ m.info.pieces.length % 20 = 0 := by
+  have hload : ∃ s, contentSize? m.info.mode = some s ∧ readMetainfo urlOk b = some (some m) := by
+    unfold loadTorrent at hl
+    split at hl
+    · cases hl
+    · cases hl
+    · rename_i m' hm
+      split at hl
+      · cases hl
+      · split at hl
+        · cases hl
+        · rename_i s hs
+          split at hl <;> first | (cases hl; exact ⟨s, hs, hm⟩) | cases hl
+  obtain ⟨s, hs, hm⟩ := hload
+  obtain ⟨buf, hinfo⟩ := readMetainfo_info urlOk b m hm
+  obtain ⟨hp20, _, hsingle⟩ := readInfoC_facts urlOk buf m.info hinfo
+  refine ⟨s, ?_, hp20⟩
+  cases hmode : m.info.mode with
+  | single n md5 =>
+    rw [hmode] at hs
+    simp only [contentSize?, Option.some.injEq] at hs
+    subst hs
+    have : n < 18446744073709551616 := by have := hsingle n md5 hmode; omega
+    simp [lengthsOf, sumLengths, Outcome.bind, addU64, this]
+  | multiple fs =>
+    rw [hmode] at hs
+    simp only [lengthsOf]
+    exact checkedSum_spec _ s hs
+
+/-- **`torrent link` never panics** -/
+theorem link_no_panic (urlOk : Bytes → Bool) (budget : Nat) (hb : 2048 ≤ budget) (b : Bytes) :
+    (linkPipeline urlOk budget b).isPanic = false := by
+  unfold linkPipeline
+  cases hl : loadTorrent urlOk b with
+  | outOfModel => rfl
+  | error e => rfl
+  | ok m span =>
+    simp only
+    cases hdec : decodeTop 2048 b with
+    | none => rfl
+    | some p =>
+      obtain ⟨v, r⟩ := p
+      simp only
+      rw [walk_decoded_no_panic budget 2048 hb b v r hdec]; rfl
+
+/-- **The read loop keeps `piece_bytes_hashed < piece_length`**, whatever the files deliver, so
+neither slice expression can fail -/
+theorem hashReads_ok (pl : Nat) (hpl : 0 < pl) : ∀ (reads : List Nat) (pbh : Nat), pbh < pl →
+    ∃ pbh', hashReads pl pbh reads = .ok pbh' ∧ pbh' < pl := by
+  intro reads
+  induction reads with
+  | nil => intro pbh h; exact ⟨pbh, rfl, h⟩
+  | cons r rest ih =>
+    intro pbh h
+    unfold hashReads hashIter
+    have h1 : ¬ pbh > pl := by omega
+    have h2 : ¬ min r (pl - pbh) > pl - pbh := by omega
+    simp only [h1, if_false, h2]
+    by_cases h0 : min r (pl - pbh) = 0
+    · simp only [h0, if_true, Outcome.bind]
+      exact ih pbh h
+    · simp only [h0, if_false, Outcome.bind]
+      by_cases hfull : pbh + min r (pl - pbh) = pl
+      · simp only [hfull, if_true]
+        exact ih 0 hpl
+      · simp only [hfull, if_false]
+        exact ih _ (by omega)
+
+/-- **`torrent verify` never panics**: for every torrent file and everything the content files
+may deliver to the read loop -/
+theorem verify_no_panic (urlOk : Bytes → Bool) (budget : Nat) (hb : 2048 ≤ budget) (b : Bytes) (reads : List Nat) :
+    (verifyPipeline urlOk budget b reads).isPanic = false := by
+  unfold verifyPipeline
+  cases hl : loadTorrent urlOk b with
+  | outOfModel => rfl
+  | error e => rfl
+  | ok m span =>
+    simp only
+    by_cases hp : m.info.pieceLength ≥ 2 ^ 32 ∨ m.info.pieceLength = 0
+    · simp [hp, Outcome.isPanic]
+    · simp only [hp, if_false]
+      obtain ⟨s, hs, hp20⟩ := load_facts urlOk b m span hl
+      have hpl : 0 < m.info.pieceLength := by omega
+      obtain ⟨pbh', hr, _⟩ := hashReads_ok m.info.pieceLength hpl reads 0 hpl
+      simp only [hs, Outcome.bind, pieceCount, hp20, if_true, hr]
+      cases hdec : decodeTop 2048 b with
+      | none => rfl
+      | some p =>
+        obtain ⟨v, r⟩ := p
+        simp only
+        rw [walk_decoded_no_panic budget 2048 hb b v r hdec]; rfl
+
 end Imdlv.C08
